@@ -41,6 +41,14 @@ def run(ctx):
             if v < (1 << (8 * w)):
                 emb.append({"fam": "aml", "tree": {"t": "Package", "ch": [{"t": "Int", "ty": ty, "v": vlib.le(v, w)}]}, "arities": []})
                 emb.append({"fam": "aml", "tree": {"t": "Int", "ty": ty, "v": vlib.le(v, w)}, "arities": []})
+    if th:
+        # u32 values by digest tabulation through u32, u64 and usize: every chunk of 65536 values below 2^24, every
+        # 64th chunk above, and the chunks around the sign and top boundaries
+        bases = sorted(set(range(0, 256)) | set(range(256, 65536, 64)) | {0x7FFE, 0x7FFF, 0x8000, 0x8001, 0xFFFE, 0xFFFF, 0x00FF, 0x0100})
+        before = len(ctx.fails)
+        ac.judge(ctx, ac.sweep_programs("u32", bases, 65536, 4), "c08sweep", timeout=7200)
+        ac.refine_sweep_failures(ctx, ctx.fails[before:], "c08sweep")
+        ctx.extra["u32_sweep"] = "%d chunks x 65536 values x 3 carrier types by digest tabulation (all values < 2^24 included)" % len(bases)
     ctx.samples = [{"fam": "ints", "vals": [vlib.le(v, 8) for v in vals[250:260]]}, emb[5]]
     ctx.n = 3 * len(vals)
     ctx.distinct = set(vals)
